@@ -234,7 +234,7 @@ class Timeout:
         :return: Connect timeout.
         :rtype: int, float, :attr:`Timeout.DEFAULT_TIMEOUT` or None
         """
-        if self.total is None:
+        if self.total is None or self.total is _DEFAULT_TIMEOUT:
             return self._connect
 
         if self._connect is None or self._connect is _DEFAULT_TIMEOUT:
